@@ -4,6 +4,7 @@ package main
 // client.Execute) with recording handlers: C08, C09 (and the well-formed part of C11).
 
 import (
+	"crypto/sha256"
 	"fmt"
 	"github.com/ipfs/go-cid"
 	cidlink "github.com/ipld/go-ipld-prime/linking/cid"
@@ -30,6 +31,7 @@ import (
 	"github.com/storacha/go-ucanto/principal"
 	"github.com/storacha/go-ucanto/server"
 	"github.com/storacha/go-ucanto/transport"
+	tcar "github.com/storacha/go-ucanto/transport/car"
 	"github.com/storacha/go-ucanto/ucan"
 	"github.com/storacha/go-ucanto/validator"
 )
@@ -171,11 +173,20 @@ func (b *Batch) newServer(obs *BatchObs) (server.ServerView, error) {
 		len(c.KeyResolver) == 0 && c.ParserKind == "ed" {
 		b.DefaultOpts = true // the context is exactly the library's defaults: two in five such batches run on a server built without options
 	}
+	if b.ID%3 == 1 {
+		// the inbound codec named explicitly (the value the library defaults to): nothing else may change
+		opts = append(opts, server.WithInboundCodec(tcar.NewCARInboundCodec()))
+	}
+	// every seventh batch: no error handler is configured (the library's default handler logs to stderr); a failing
+	// handler must still produce its error receipt and nothing else
+	noCatch := b.ID%7 == 3
 	if b.DefaultOpts {
 		// the server as most services build it: NewServer(id, handlers...) and nothing else — every validation option
 		// at the library's default (self-issued only, nothing revoked, no proof resolver, did:key principals, no DID resolution);
 		// only set when the world's context IS those defaults
-		opts = append(opts, server.WithErrorHandler(func(err server.HandlerExecutionError[any]) {}))
+		if !noCatch {
+			opts = append(opts, server.WithErrorHandler(func(err server.HandlerExecutionError[any]) {}))
+		}
 	} else if (b.ID/2+b.ID)%2 == 1 {
 		// every option given TWICE, a permissive / useless value first: the configured (last) one must be in force
 		opts = append(opts,
@@ -192,8 +203,10 @@ func (b *Batch) newServer(obs *BatchObs) (server.ServerView, error) {
 			server.WithProofResolver(w.resolver()),
 			server.WithPrincipalParser(w.parser(dummy)),
 			server.WithPrincipalResolver(w.keyResolver()),
-			server.WithErrorHandler(func(err server.HandlerExecutionError[any]) {}),
 		)
+		if !noCatch {
+			opts = append(opts, server.WithErrorHandler(func(err server.HandlerExecutionError[any]) {}))
+		}
 	}
 	var r *rand.Rand
 	if b.Perturb != 0 {
@@ -429,9 +442,21 @@ func (b *Batch) RunConcurrent(groups [][]string, channel func(srv server.ServerV
 }
 
 func (b *Batch) runOn(ch transport.Channel, names []string, obs *BatchObs) {
-	conn, err := client.NewConnection(b.W.Ctx.Authority.DID, ch)
+	var copts []client.Option
+	if b.ID%2 == 0 {
+		// the connection options named explicitly (the values the library defaults to): nothing else may change
+		copts = append(copts, client.WithOutboundCodec(tcar.NewCAROutboundCodec()), client.WithHasher(sha256.New))
+	}
+	if b.ID%4 == 1 {
+		copts = append(copts, client.WithHasher(nil)) // no hasher factory: the default (SHA-256) stays in force
+	}
+	conn, err := client.NewConnection(b.W.Ctx.Authority.DID, ch, copts...)
 	if err != nil {
 		obs.ExecErr = "connection: " + err.Error()
+		return
+	}
+	if mm := covConnAccessors(conn, b.W.Ctx.Authority.DID, ch); mm != "" {
+		obs.ExecErr = "connection: " + mm // gen_cov.go: ID / Channel / Codec / Hasher give back what the connection was built with
 		return
 	}
 	var invs []invocation.Invocation
